@@ -246,6 +246,9 @@ func runSearch(m map[string]any) Result {
 	if err != nil {
 		return Result{Class: "harness", Detail: err.Error()}
 	}
+	if sets, ok := m["carriersets"].([]any); ok {
+		return runCarrierSets(expr, doc, adm, sets)
+	}
 	b := &builder{carriers: decodeCarriers(m["carriers"])}
 	docGo := b.build(doc)
 	if b.bad {
@@ -255,7 +258,7 @@ func runSearch(m map[string]any) Result {
 	_ = steps
 	var c call
 	n := countSteps(func() { c = doSearch(expr, docGo) })
-	var before *TV = doc
+	before := baselineOf(doc, b, docGo)
 	if b.hostile {
 		before = nil // the projection cannot represent foreign values; only "returns normally" is checked
 	}
@@ -299,8 +302,9 @@ func runSearch(m map[string]any) Result {
 	} else {
 		b2 := &builder{carriers: b.carriers}
 		doc2 := b2.build(doc)
+		before2 := baselineOf(doc, b2, doc2)
 		c2 := doExprSearch(e, doc2)
-		if r := genericChecks(c2, doc, doc2, b2, true); r != nil {
+		if r := genericChecks(c2, before2, doc2, b2, true); r != nil {
 			return *r
 		}
 		if !sameOutcome(c.out, c2.out) && !admits(adm, c2.out) {
@@ -660,4 +664,54 @@ func sharedCheck(expr string, doc *TV, carriers []string, adm []*TV) *Result {
 		return &r
 	}
 	return nil
+}
+
+// runCarrierSets: one expression, one document, several assignments of Go
+// types to its numbers (C14).  Assignments that cannot hold a value exactly are
+// left out; all others must give the same outcome, whatever it is.
+func runCarrierSets(expr string, doc *TV, adm []*TV, sets []any) Result {
+	var first *TV
+	firstKind := ""
+	ran := 0
+	for _, s := range sets {
+		cs := decodeCarriers(s)
+		b := &builder{carriers: cs}
+		docGo := b.build(doc)
+		if b.bad {
+			continue
+		}
+		c := doSearch(expr, docGo)
+		if r := genericChecks(c, doc, docGo, b, true); r != nil {
+			r.Detail = fmt.Sprintf("carriers %v: %s", cs, r.Detail)
+			return *r
+		}
+		if !admits(adm, c.out) {
+			return fail("mismatch", c.out, fmt.Sprintf("carriers %v: outcome outside the admissible set", cs))
+		}
+		ran++
+		if first == nil {
+			first, firstKind = c.out, fmt.Sprint(cs)
+			continue
+		}
+		if !sameOutcome(first, c.out) {
+			return fail("differs", c.out, fmt.Sprintf("the outcome depends on the Go type that carries the number: %s gives %s, %v gives %s", firstKind, first.show(), cs, c.out.show()))
+		}
+	}
+	if ran < 2 {
+		return Result{OK: true, Class: "skip-carrier"}
+	}
+	return Result{OK: true, Pinned: true, GotS: fmt.Sprintf("%s under %d carrier sets", first.show(), ran)}
+}
+
+// baselineOf: what the document must still look like after a call.  Normally
+// the case's own document; with an inexact float carrier ("floatany") the Go
+// value is only the nearest float to the number written in the case, so the
+// document is compared with itself as it was before the call.
+func baselineOf(doc *TV, b *builder, docGo any) *TV {
+	for _, k := range b.carriers {
+		if k == "floatany" {
+			return fromGo(docGo)
+		}
+	}
+	return doc
 }
